@@ -10,11 +10,18 @@ import DclabModel.DriveUtil
     conv <name> <val>  convold <name> <val>  h5 <val>  eq <val> <val>
     set <sec> <key> <val>      item assignment on an empty section (sec/key as s:<cps>)
     case <sec> <key> <val>     set ## normalise twice ## h5 of the stored value ## re-assigned
-    file <sec> <key> <text>    value conversion of load_from_file followed by assignment
+    file <sec> <key> <raw>     line `key = raw` of a configuration file (cleanText, conversion, assignment)
+    clean <raw>                cleanText
+    reg <name> | dereg <name>  register / deregister a scalar feature (state of the driver)
+    attr-reset | attr-store <sec> <key> <val> | attr-get <sec> <key>   store_metadata history
 -/
 open DclabModel.Meta DclabModel.DriveUtil
 
-def tbl : Tbl := DclabModel.Gen.MetaTable.tbl
+structure D where
+  reg : List Str := []
+  attrs : Attrs := []
+
+def baseTbl : Tbl := DclabModel.Gen.MetaTable.tbl
 
 def parseCps (s : String) : Option Str :=
   if s = "" then some [] else (s.splitOn ".").mapM (·.toNat?)
@@ -119,9 +126,39 @@ def showSet (key : Str) : Except Err (Dict × List Warn) → String
 def parseStr (s : String) : Option Str :=
   if s.startsWith "s:" then parseCps (dropN s 2) else none
 
-def handle (u : Unit) (line : String) : Unit × String :=
+def handle (u : D) (line : String) : D × String :=
+  let tbl := baseTbl.withFeats u.reg
+  match words line with
+  | ["reg", n] =>
+    match parseStr n with
+    | some n => ({ u with reg := regStep u.reg (.reg n) }, "ok")
+    | none => (u, "bad-op")
+  | ["dereg", n] =>
+    match parseStr n with
+    | some n => ({ u with reg := regStep u.reg (.dereg n) }, "ok")
+    | none => (u, "bad-op")
+  | ["attr-reset"] => ({ u with attrs := [] }, "ok")
+  | ["attr-store", sec, key, v] =>
+    match parseStr sec, parseStr key, parseVal v with
+    | some sec, some key, some v =>
+      match tbl.storeMeta u.attrs [(sec, key, v)] with
+      | .ok a => ({ u with attrs := a }, "ok")
+      | .error e => (u, showErr e)
+    | _, _, _ => (u, "bad-op")
+  | ["attr-get", sec, key] =>
+    match parseStr sec, parseStr key with
+    | some sec, some key =>
+      (u, match u.attrs.get? (sec, key) with
+          | some v => showVal v
+          | none => "missing")
+    | _, _ => (u, "bad-op")
+  | _ =>
   let ans : String :=
     match words line with
+    | ["clean", t] =>
+      match parseStr t with
+      | some t => "s:" ++ showCps (cleanText t)
+      | none => "bad-op"
     | ["conv", c, v] =>
       match Conv.ofName c, parseVal v with
       | some c, some v => showRes (conv c v)
@@ -144,7 +181,7 @@ def handle (u : Unit) (line : String) : Unit × String :=
       | _, _, _ => "bad-op"
     | ["file", sec, key, t] =>
       match parseStr sec, parseStr key, parseStr t with
-      | some sec, some key, some t => showSet key (tbl.fileRoute sec [] key t)
+      | some sec, some key, some t => showSet key (tbl.fileLine sec [] key t)
       | _, _, _ => "bad-op"
     | ["case", sec, key, v] =>
       match parseStr sec, parseStr key, parseVal v with
@@ -162,4 +199,4 @@ def handle (u : Unit) (line : String) : Unit × String :=
     | _ => "bad-op"
   (u, ans)
 
-def main : IO Unit := mainLoop () handle
+def main : IO Unit := mainLoop ({} : D) handle
